@@ -39,6 +39,10 @@ pub fn pools() -> Pools {
         lit("2", "integer"),
         lit("-3", "integer"),
         lit("0", "integer"),
+        lit("9223372036854775807", "integer"),
+        lit("-9223372036854775808", "integer"),
+        lit("9223372036854775808", "integer"),
+        lit("+5", "integer"),
         lit("1a", "integer"),
         lit("a", "string"),
         lit("b", "string"),
@@ -205,6 +209,7 @@ impl QG<'_> {
         match self.rng.below(20) {
             0..=8 => self.var(),
             9..=11 => sparql_term(&self.rng.pick(&self.pl.nodes[..4]).clone()),
+            12 if self.bgp_no == 1 => format!("_:{}", self.rng.pick(VARS)),
             12..=13 => format!("_:l{}_{}", self.bgp_no, self.rng.below(2)),
             14 => "[]".to_string(),
             15..=16 if depth == 0 => {
@@ -315,7 +320,12 @@ impl QG<'_> {
             // a blank node of the data cannot be written as a constant (it would be a placeholder)
             T::Bnode(_) => {
                 if depth == 0 && self.rng.chance(1, 4) {
-                    let v = format!("_:l{}_{}", self.bgp_no, self.rng.below(2));
+                    let v = if self.bgp_no == 1 && self.rng.chance(1, 2) {
+                        // a label spelled like a variable of the query
+                        format!("_:{}", self.rng.pick(VARS))
+                    } else {
+                        format!("_:l{}_{}", self.bgp_no, self.rng.below(2))
+                    };
                     if !map.iter().any(|(_, u)| *u == v) {
                         map.push((t.clone(), v.clone()));
                         return v;
@@ -375,7 +385,7 @@ impl QG<'_> {
             return if self.rng.chance(2, 3) { self.evar() } else { self.constant() };
         }
         let d = depth - 1;
-        match self.rng.below(26) {
+        match self.rng.below(40) {
             0..=2 => self.evar(),
             3 => self.constant(),
             4..=5 => format!("BOUND({})", self.evar()),
@@ -392,15 +402,26 @@ impl QG<'_> {
             22 => format!("LANG({})", self.expr(d)),
             23 => format!("DATATYPE({})", self.expr(d)),
             24 => format!("({} != {})", self.expr(d), self.expr(d)),
+            25 => format!("({} > {})", self.expr(d), self.expr(d)),
+            26 => format!("({} <= {})", self.expr(d), self.expr(d)),
+            27 => format!("({} >= {})", self.expr(d), self.expr(d)),
+            28 => format!("({} + {})", self.expr(d), self.expr(d)),
+            29 => format!("({} - {})", self.expr(d), self.expr(d)),
+            30 => format!("({} * {})", self.expr(d), self.expr(d)),
+            31 => format!("(-{})", self.expr(d)),
+            32 => format!("(+{})", self.expr(d)),
+            33..=34 => format!("IF({}, {}, {})", self.expr(d), self.expr(d), self.expr(d)),
+            35 => format!("COALESCE({}, {})", self.expr(d), self.expr(d)),
+            36 => format!("COALESCE({}, {}, {})", self.expr(d), self.expr(d), self.expr(d)),
+            37 => format!("({} IN ({}, {}))", self.expr(d), self.expr(d), self.expr(d)),
+            38 => format!("({} NOT IN ({}, {}, {}))", self.expr(d), self.expr(d), self.expr(d), self.expr(d)),
             _ => {
                 // outside the core: shipped as `raw` (no-panic only)
-                match self.rng.below(6) {
-                    0 => format!("({} + 1)", self.expr(d)),
-                    1 => format!("IF({}, {}, {})", self.expr(d), self.expr(d), self.expr(d)),
-                    2 => format!("COALESCE({}, {})", self.expr(d), self.expr(d)),
-                    3 => format!("({} > {})", self.expr(d), self.expr(d)),
-                    4 => format!("REGEX(STR({}), \"a\")", self.expr(d)),
-                    _ => format!("({} IN ({}, {}))", self.expr(d), self.expr(d), self.expr(d)),
+                match self.rng.below(4) {
+                    0 => format!("({} / 2)", self.expr(d)),
+                    1 => format!("CONCAT(STR({}), \"a\")", self.expr(d)),
+                    2 => format!("REGEX(STR({}), \"a\")", self.expr(d)),
+                    _ => format!("STRLEN(STR({}))", self.expr(d)),
                 }
             }
         }
@@ -444,7 +465,15 @@ impl QG<'_> {
                 // a test on a bound variable that typically holds for some rows and fails for others
                 let v = self.evar();
                 let c = self.constant();
-                let t = match self.rng.below(9) {
+                let t = match self.rng.below(17) {
+                    9 => format!("{} >= 1", v),
+                    10 => format!("{} <= {}", v, c),
+                    11 => format!("{} + 1 > 2", v),
+                    12 => format!("{} IN ({}, 1, \"a\")", v, c),
+                    13 => format!("{} NOT IN ({}, ?nosuch)", v, c),
+                    15 => format!("{} IN (?nosuch, {})", v, c),
+                    16 => format!("{} IN ({} < 1, {})", v, v, c),
+                    14 => format!("IF(isLiteral({}), {} * 2 > 2, isIRI({}))", v, v, v),
                     0 => format!("isIRI({})", v),
                     1 => format!("isLiteral({})", v),
                     2 => format!("isBlank({})", v),
@@ -460,6 +489,27 @@ impl QG<'_> {
                 let d = self.rng.range(1, 3);
                 s += &format!("FILTER({}) ", self.expr(d));
             }
+        }
+        if self.rng.chance(1, 8) {
+            // FILTER [NOT] EXISTS { .. } correlated with the group through its variables; now and then
+            // with an operator the engine refuses (must be refused, not answered `false`) or a BIND
+            // (outside the oracle: skipped)
+            let saved_budget = self.tp_budget;
+            self.tp_budget = 2;
+            let t = self.triples(2);
+            self.tp_budget = saved_budget;
+            let inner = match self.rng.below(12) {
+                0 => format!("{} OPTIONAL {{ ?s ?p ?x }}", t),
+                1 => format!("{} MINUS {{ ?s ?p ?x }}", t),
+                2 => format!("{} BIND(1 AS ?w)", t),
+                3 => format!("{{ {} }} UNION {{ ?o ?p ?s }}", t),
+                4 => format!("{} FILTER(isIRI({}))", t, self.evar()),
+                5 => format!("GRAPH ?g {{ {} }}", t),
+                6 => format!("{} FILTER NOT EXISTS {{ ?o ?p ?s }}", t),
+                _ => t,
+            };
+            let n = if self.rng.chance(1, 2) { "NOT " } else { "" };
+            s += &format!("FILTER {}EXISTS {{ {} }} ", n, inner);
         }
         s
     }
@@ -782,6 +832,17 @@ const DIRECT: &[&str] = &[
     "ask nods slice bgp 1 v 73 v 70 v 6f 0 0",
     // a blank-node placeholder shared between two BGPs (the text parser rejects it)
     "select nods project union bgp 1 b 61 v 70 v 6f bgp 1 v 73 v 70 b 61 3 73 70 6f",
+    // a dataset clause without `named` list (only constructible programmatically; the parser always
+    // produces `named: Some(..)`, which is refused): FROM <x:g1>; FROM <x:g1> FROM <x:g2> over graphs
+    // sharing a triple (RDF merge: once); GRAPH ?g under FROM (no named graph in that dataset); no FROM
+    "select ds 1 783a6731 nonamed project bgp 1 v 73 v 70 v 6f 3 73 70 6f",
+    "select ds 2 783a6731 783a6732 nonamed project bgp 1 v 73 v 70 v 6f 3 73 70 6f",
+    "select ds 2 783a6731 783a6732 nonamed distinct project bgp 1 v 73 v 70 v 6f 3 73 70 6f",
+    "select ds 2 783a6731 783a6732 nonamed project bgp 2 v 73 v 70 v 6f i 783a61 i 783a70 i 783a62 3 73 70 6f",
+    "ask ds 1 783a6731 nonamed graph v 67 bgp 1 v 73 v 70 v 6f",
+    "select ds 1 783a6e6f73756368 nonamed project bgp 1 v 73 v 70 v 6f 3 73 70 6f",
+    "select ds 0 nonamed project bgp 1 v 73 v 70 v 6f 3 73 70 6f",
+    "select ds 1 783a6731 nonamed project leftjoin bgp 1 v 73 v 70 v 6f bgp 1 v 6f v 70 v 78 3 73 70 6f",
     // projecting the same variable twice
     "select nods project bgp 1 v 73 v 70 v 6f 2 73 73",
 ];
@@ -880,6 +941,14 @@ fn shape_stats(stats: &mut Stats, alg: &str, text: &str) {
         if alg.starts_with(k) || alg.contains(&format!(" {}", k)) {
             stats.bump(&format!("alg.{}", k.trim().replace(' ', "_")));
         }
+    }
+    for k in ["gt", "le", "ge", "lt", "eq", "add", "sub", "mul", "neg", "pos", "if", "in", "coalesce", "or", "and", "not", "same", "fexists 0", "fexists 1"] {
+        if alg.contains(&format!(" {} ", k)) {
+            stats.bump(&format!("expr.{}", k.replace(' ', "_")));
+        }
+    }
+    if alg.contains(" nonamed ") {
+        stats.bump("alg.ds_nonamed");
     }
     if text.contains("<<") {
         stats.bump("alg.quoted_pattern");
